@@ -341,4 +341,192 @@ theorem foldl_wake_announces (now j : Nat) (i : MyIntf) (svc : Service) (v4 : Bo
         · rw [wakeService_services_other now j i acc nm _ (fun x => e x.symm)]
           exact hu
 
+theorem srv_mem_unique (svc : Service) (i : MyIntf) (v4 : Bool) : ∃ a, a ∈ uniqueRecords svc i {} v4 := by
+  unfold uniqueRecords
+  exact ⟨_, List.mem_append.mpr (Or.inl (List.mem_cons_self ..))⟩
+
+/-- the step of `probing_handler` for interface `i` in which the probes of ALL unique records of
+    a pending service end: the service is announced -/
+theorem probingOnIntf_announces (now j : Nat) (acc : State × List Out) (i : MyIntf) (svc u : Service) (v4 : Bool)
+    (hpn : KeysNodup (acc.1.registry i.index).probing) (hnr : NoRen (acc.1.registry i.index))
+    (hu : alookup (lower svc.fullname) acc.1.services = some u) (hs : UpToStatus u svc) (hnot : u.announcedOn i.index = false)
+    (hne : addrsOn svc i v4 ≠ [])
+    (hrecs : ∀ a ∈ uniqueRecords svc i {} v4, ∃ p b, alookup a.getName (acc.1.registry i.index).probing = some p ∧
+      p.action now = .expire ∧ b ∈ p.records ∧ b.getName = a.getName ∧ a.matchesRR b = true ∧ svc.fullname ∈ p.waiting) :
+    Sent (probingOnIntf now j acc i) i svc v4 (uniqueRecords svc i {} v4) now := by
+  cases hreg : alookup i.index acc.1.registries with
+  | none =>
+    exfalso
+    obtain ⟨a0, ha0⟩ := srv_mem_unique svc i v4
+    obtain ⟨p, _, hp, _⟩ := hrecs a0 ha0
+    have : acc.1.registry i.index = {} := by simp [State.registry, hreg]
+    rw [this] at hp
+    simp [alookup] at hp
+  | some r =>
+    have hr : acc.1.registry i.index = r := registry_of_lookup hreg
+    rw [hr] at hpn hnr hrecs
+    have hcpn := checkProbing_noRen hnr now
+    have hexnr := (handleExpiredProbes_spec (checkProbing r now).expired i.name (checkProbing r now).reg hcpn).1
+    -- every unique record is active after the probes were moved
+    have hactive : ∀ a ∈ uniqueRecords svc i {} v4,
+        (handleExpiredProbes (checkProbing r now).expired i.name (checkProbing r now).reg).1.isActive a = true := by
+      intro a ha
+      obtain ⟨p, b, hp, hexp, hb, hbn, hm, _⟩ := hrecs a ha
+      have hin : a.getName ∈ (checkProbing r now).expired := by
+        simp only [checkProbing, List.mem_map, List.mem_filter]
+        exact ⟨(a.getName, p), ⟨alookup_mem hp, by simp [hexp]⟩, rfl⟩
+      have hl' : alookup a.getName (checkProbing r now).reg.probing = some (p.step now) := by
+        have hm' := alookup_mapVal a.getName (fun _ p => Probe.step p now) r.probing
+        rw [checkProbing_probing, hm', hp]; rfl
+      have := foldl_expire_activates i.name a.getName (p.step now) (checkProbing r now).expired
+        ((checkProbing r now).reg, [], []) hin hl' hcpn b (by rw [Probe.step_records]; exact hb) hbn
+      exact isActive_of_matches _ a b hm hbn.symm this
+    -- the service is among the woken ones
+    have hwoken : svc.fullname ∈ (handleExpiredProbes (checkProbing r now).expired i.name (checkProbing r now).reg).2.2 := by
+      obtain ⟨a0, ha0⟩ := srv_mem_unique svc i v4
+      obtain ⟨p, b, hp, hexp, hb, _, _, hw⟩ := hrecs a0 ha0
+      have hin : a0.getName ∈ (checkProbing r now).expired := by
+        simp only [checkProbing, List.mem_map, List.mem_filter]
+        exact ⟨(a0.getName, p), ⟨alookup_mem hp, by simp [hexp]⟩, rfl⟩
+      have hl' : alookup a0.getName (checkProbing r now).reg.probing = some (p.step now) := by
+        have hm' := alookup_mapVal a0.getName (fun _ p => Probe.step p now) r.probing
+        rw [checkProbing_probing, hm', hp]; rfl
+      have hne' : (p.step now).records ≠ [] := by
+        rw [Probe.step_records]; intro e; rw [e] at hb; simp at hb
+      have hw' : svc.fullname ∈ (p.step now).waiting := by
+        unfold Probe.step; split <;> exact hw
+      exact foldl_expire_waiting i.name a0.getName (p.step now) hne' (checkProbing r now).expired
+        ((checkProbing r now).reg, [], []) hin hl' hcpn _ hw'
+    unfold probingOnIntf
+    simp only [hreg]
+    have e : ({ (acc.1.setRegistry i.index
+        (handleExpiredProbes (checkProbing r now).expired i.name (checkProbing r now).reg).1) with
+        timers := acc.1.timers ++ (checkProbing r now).timers } : State).registry i.index =
+        (handleExpiredProbes (checkProbing r now).expired i.name (checkProbing r now).reg).1 :=
+      registry_setRegistry_self _ _ _
+    apply foldl_wake_announces now j i svc v4 hne
+    · rw [e]; exact hexnr.1
+    · rw [e]; exact hactive
+    · exact Or.inr ⟨hwoken, u, hu, hs, hnot⟩
+
+theorem probingOnIntf_announced (now j : Nat) (acc : State × List Out) (i : MyIntf) (key : BList) (svc : Service) (idx : Nat)
+    (h : Announced acc.1 key svc idx) : Announced (probingOnIntf now j acc i).1 key svc idx := by
+  unfold probingOnIntf
+  simp only []
+  split
+  · exact h
+  · exact foldl_inv (fun (a : State × List Out) => Announced a.1 key svc idx) (wakeService now j i) _ (_, _) h
+      (fun a nm _ ha => wakeService_announced now j i a nm key svc idx ha)
+
+theorem probingOnIntf_reruns_mono (now j : Nat) (acc : State × List Out) (i : MyIntf) (x : ReRun) (h : x ∈ acc.1.reruns) :
+    x ∈ (probingOnIntf now j acc i).1.reruns := by
+  unfold probingOnIntf
+  simp only []
+  split
+  · exact h
+  · exact foldl_inv (fun (a : State × List Out) => x ∈ a.1.reruns) (wakeService now j i) _ (_, _) h
+      (fun a nm _ ha => wakeService_reruns_mono now j i a nm x ha)
+
+theorem Sent.step {acc : State × List Out} {i : MyIntf} {svc : Service} {v4 : Bool} {U : List RR} {now : Nat}
+    (h : Sent acc i svc v4 U now) (j : Nat) (i' : MyIntf) : Sent (probingOnIntf now j acc i') i svc v4 U now :=
+  ⟨probingOnIntf_mono now j acc i' _ h.packet, probingOnIntf_announced now j acc i' _ svc i.index h.status,
+    probingOnIntf_reruns_mono now j acc i' _ h.rerun⟩
+
+/-- `probing_handler` in the iteration in which the probes of all unique records of a registered,
+    not yet announced service end on interface `i`: the service is announced there -/
+theorem probingHandler_announces (s : State) (now j : Nat) (i : MyIntf) (l1 l2 : List MyIntf) (hi : IntfsOk s i l1 l2)
+    (svc : Service) (v4 : Bool) (hinv : Inv s) (hent : Entry s (lower svc.fullname) svc) (hprobe : svc.probe = true)
+    (hpn : KeysNodup (s.registry i.index).probing) (hnr : NoRen (s.registry i.index)) (hne : addrsOn svc i v4 ≠ [])
+    (a0 : RR) (ha0 : ∀ v, a0 ∈ uniqueRecords svc i (s.registry i.index) v) (hin0 : (s.registry i.index).isActive a0 = false)
+    (hrecs : ∀ a ∈ uniqueRecords svc i {} v4, ∃ p b, alookup a.getName (s.registry i.index).probing = some p ∧
+      p.action now = .expire ∧ b ∈ p.records ∧ b.getName = a.getName ∧ a.matchesRR b = true ∧ svc.fullname ∈ p.waiting) :
+    Sent (probingHandler s now j) i svc v4 (uniqueRecords svc i {} v4) now := by
+  unfold probingHandler
+  rw [hi.split, List.foldl_append, List.foldl_cons]
+  -- phase 1: the other interfaces before `i`
+  have h1 := foldl_inv (fun (a : State × List Out) => a.1.registry i.index = s.registry i.index ∧ Inv a.1 ∧
+      a.1.intfs = s.intfs ∧ Entry a.1 (lower svc.fullname) svc)
+    (probingOnIntf now j) l1 (s, []) ⟨rfl, hinv, rfl, hent⟩
+    (fun a i' hi' ha => by
+      have hne' : i'.index ≠ i.index := hi.other i' (List.mem_append.mpr (Or.inl hi'))
+      have hmem : i' ∈ a.1.intfs := by rw [ha.2.2.1, hi.split]; exact List.mem_append.mpr (Or.inl hi')
+      obtain ⟨hinv', hintfs'⟩ := probingOnIntf_inv now j a i' ha.2.1 hmem
+      exact ⟨(probingOnIntf_registry_other now j a i' i.index hne').trans ha.1, hinv', hintfs'.trans ha.2.2.1,
+        probingOnIntf_entry now j a i' _ svc ha.2.2.2⟩)
+  obtain ⟨hr1, hinv1, hintfs1, ⟨u, hu, hs⟩⟩ := h1
+  have hi1 : IntfsOk (l1.foldl (probingOnIntf now j) (s, [])).1 i l1 l2 := ⟨hintfs1.trans hi.split, hi.other⟩
+  have hnot : u.announcedOn i.index = false :=
+    not_announced_of_inactive hinv1 hi1 hu hs hprobe (by rw [hr1]; exact ha0) (by rw [hr1]; exact hin0)
+  -- phase 2: `i`
+  have h2 := probingOnIntf_announces now j (l1.foldl (probingOnIntf now j) (s, [])) i svc u v4
+    (by rw [hr1]; exact hpn) (by rw [hr1]; exact hnr) hu hs hnot hne (by rw [hr1]; exact hrecs)
+  -- phase 3
+  exact foldl_inv (fun (a : State × List Out) => Sent a i svc v4 (uniqueRecords svc i {} v4) now) (probingOnIntf now j) l2 _ h2
+    (fun a i' _ ha => ha.step j i')
+
+/-! ### the first announcement through `iter` -/
+
+/-- every unique record of the family is being probed, fresh enough to end at `T + 750`:
+    for each there is a watched probe (a `Good` bundle) holding a matching record and the
+    service among the waiting ones, and the record was not active when its probe began -/
+def AllProbed (s : State) (i : MyIntf) (l1 l2 : List MyIntf) (svc : Service) (v4 : Bool) (T nx : Nat) : Prop :=
+  ∀ a ∈ uniqueRecords svc i {} v4, ∃ b A, a.matchesRR b = true ∧ b.getName = a.getName ∧
+    ((A.getD []).any (a.matchesRR ·)) = false ∧
+    Good s i l1 l2 a.getName T nx ⟨[b], [svc.fullname], A⟩
+
+theorem Inv.congr_regs {s s' : State} (h : Inv s) (hi : s'.intfs = s.intfs) (hr : s'.registries = s.registries)
+    (hs : s'.services = s.services) : Inv s' :=
+  Inv.step h (StLe.of_eq hi hr) (fun idx => by rw [registry_congr hr]; exact h.noRen idx) (fun e he => Or.inl (hs ▸ he))
+
+/-- FIRST ANNOUNCEMENT IN THE DAEMON: the idle iteration at `T + 750` - when the probes of all
+    unique records of a registered service (started at `T`, next send due at `T + 750`) end -
+    sends the announcement on interface `i` over the family, marks the service `Announced` and
+    queues `RegisterResend` for `T + 1750`. -/
+theorem iter_idle_announces (s : State) (i : MyIntf) (l1 l2 : List MyIntf) (svc : Service) (v4 : Bool) (T j : Nat)
+    (hinv : Inv s) (hent : Entry s (lower svc.fullname) svc) (hprobe : svc.probe = true) (hne : addrsOn svc i v4 ≠ [])
+    (a0 : RR) (ha0 : ∀ v, a0 ∈ uniqueRecords svc i {} v)
+    (hall : AllProbed s i l1 l2 svc v4 T (T + 750)) :
+    Out.send i.index v4 none (announcePkt svc svc.fullname (uniqueRecords svc i {} v4)) ∈ (iter s (idle (T + 750) j)).2 ∧
+    Announced (iter s (idle (T + 750) j)).1 (lower svc.fullname) svc i.index ∧
+    ReRun.registerResend (T + 750 + 1000) svc.fullname i.index ∈ (iter s (idle (T + 750) j)).1.reruns := by
+  -- the bundle of the record that is in both families
+  obtain ⟨b0, A0, _, _, hA0, hg0⟩ := hall a0 (ha0 v4)
+  have hrun := hg0.running
+  rw [iter_idle s (T + 750) j hrun]
+  unfold loopTail
+  -- after the re-runs
+  obtain ⟨hw0, _, hi4, _, _⟩ := runReruns_keeps { s with timers := s.timers.filter (· > T + 750) } (T + 750) j i.index
+    a0.getName T (T + 750) _ (hg0.watch.congr rfl) hg0.reruns
+  have hinv2 : Inv ({ s with timers := s.timers.filter (· > T + 750) } : State) := hinv.congr_regs rfl rfl rfl
+  have hinv4 := (runReruns_inv _ (T + 750) j hinv2).1
+  have hent4 := runReruns_entry { s with timers := s.timers.filter (· > T + 750) } (T + 750) j _ svc (hent.congr rfl)
+  have hintfs4 : IntfsOk (runReruns { s with timers := s.timers.filter (· > T + 750) } (T + 750) j).1 i l1 l2 :=
+    ⟨hi4.trans hg0.intfs.split, hg0.intfs.other⟩
+  have hnc4 := hw0.noRen.1
+  have huq : ∀ v, uniqueRecords svc i ((runReruns { s with timers := s.timers.filter (· > T + 750) } (T + 750) j).1.registry i.index) v =
+      uniqueRecords svc i {} v := fun v => uniqueRecords_congr (r := {}) hnc4 svc i v
+  have hin0 : ((runReruns { s with timers := s.timers.filter (· > T + 750) } (T + 750) j).1.registry i.index).isActive a0 = false := by
+    unfold Registry.isActive
+    rw [hw0.act]
+    exact hA0
+  have hrecs : ∀ a ∈ uniqueRecords svc i {} v4, ∃ p b,
+      alookup a.getName ((runReruns { s with timers := s.timers.filter (· > T + 750) } (T + 750) j).1.registry i.index).probing = some p ∧
+      p.action (T + 750) = .expire ∧ b ∈ p.records ∧ b.getName = a.getName ∧ a.matchesRR b = true ∧ svc.fullname ∈ p.waiting := by
+    intro a ha
+    obtain ⟨b, A, hm, hbn, _, hg⟩ := hall a ha
+    obtain ⟨hw, _, _, _, _⟩ := runReruns_keeps { s with timers := s.timers.filter (· > T + 750) } (T + 750) j i.index
+      a.getName T (T + 750) _ (hg.watch.congr rfl) hg.reruns
+    obtain ⟨p, hp, hst, hnx, hrec, hwt⟩ := hw.probe
+    refine ⟨p, b, hp, ?_, hrec b (by simp), hbn, hm, hwt _ (by simp)⟩
+    unfold Probe.action
+    rw [hst, hnx]
+    simp
+  have hsent := probingHandler_announces _ (T + 750) j i l1 l2 hintfs4 svc v4 hinv4 hent4 hprobe hw0.pn hw0.noRen hne a0
+    (fun v => by rw [huq]; exact ha0 v) hin0 hrecs
+  obtain ⟨e1, e2, e3, e4⟩ := runIpCheck_registries
+    (probingHandler (runReruns { s with timers := s.timers.filter (· > T + 750) } (T + 750) j).1 (T + 750) j).1 (T + 750)
+  refine ⟨List.mem_append.mpr (Or.inr hsent.packet), ?_, by rw [e4]; exact hsent.rerun⟩
+  obtain ⟨u, hu, hs, ha⟩ := hsent.status
+  exact ⟨u, by rw [runIpCheck_services]; exact hu, hs, ha⟩
+
 end Mdns.Responder
